@@ -280,14 +280,14 @@ async def reconnect_case(ctx, first_end: str, stream: bytes, writes: list[str]) 
         sessions["n"] += 1
         try:
             if sessions["n"] == 1:
-                writer.write(b"first;session\n")
+                writer.write(b"first;session\n" + (b"4;1;1;0;2" if first_end == "eof-midline" else b""))
                 await writer.drain()
                 if first_end == "reset":
                     sock = writer.get_extra_info("socket")
                     sock.setsockopt(socket.SOL_SOCKET, socket.SO_LINGER, struct.pack("ii", 1, 0))
                     writer.transport.abort()
                     return
-                if first_end == "eof":
+                if first_end in ("eof", "eof-midline"):
                     writer.write_eof()
                 await reader.read()
             else:
@@ -516,6 +516,19 @@ def random_stream(rng) -> bytes:
     return data
 
 
+def length_sweep_writes(rng) -> list[str]:
+    """Lines of every character length 1..140 whose UTF-8 length differs from their character length by 0..9 bytes
+    (chunked writers, byte/character confusions)."""
+    out = []
+    for length in range(1, 141):
+        wide = rng.choice(["é", "日", "😀", "ß"])
+        count = rng.choice([0, 1, 1, 2, 3])
+        count = min(count, length)
+        body = (wide * count + "a" * (length - count - 1))[: max(0, length - 1)]
+        out.append(body + "\n")
+    return out
+
+
 def random_writes(rng) -> list[str]:
     pool = ["1;2;1;0;0;5\n", "0;255;3;0;2;\n", "1;0;1;0;49;55.7;13.0;18\n", "9;9;1;0;0;åäö\n", "9;9;1;0;0;日本😀\n", "x\n", "\n",
             " lead and trail \n", "a" * 5000 + "\n", "no-newline", "\x00\n"]
@@ -574,10 +587,10 @@ def run(ctx) -> None:
                 stream = random_stream(rng) if i % 10 else rng.choice([b"x" * 70000 + b"\nafter\n", b"ok\n" * 2000])
                 sizes = [rng.choice([1, 2, 3, 7, 64, 1000, 65536]) for _ in range(rng.randint(1, 8))]
                 fault = "reset-after-stream" if i % 5 == 0 else None
-                arun(tcp_case(ctx, stream, sizes, random_writes(rng), fault))
-            for i, first_end in enumerate(("eof", "reset", "open", "reset", "eof")):
+                arun(tcp_case(ctx, stream, sizes, length_sweep_writes(rng) if i % 7 == 3 else random_writes(rng), fault))
+            for i, first_end in enumerate(("eof", "reset", "open", "eof-midline", "reset", "eof-midline")):
                 if ctx.mine(i):
-                    arun(reconnect_case(ctx, first_end, b"second;1\nsecond;2\n", ["w1\n", "w2 \xe5\n"]))
+                    arun(reconnect_case(ctx, first_end, b"4;1;1;0;2;1\nsecond;2\n", ["w1\n", "w2 \xe5\n"]))
         # pty
         try:
             a, b = os.openpty()
@@ -594,6 +607,8 @@ def run(ctx) -> None:
                     stream += b"\n"
                 sizes = [rng.choice([1, 2, 5, 17, 64, 300]) for _ in range(rng.randint(1, 6))]
                 writes = [w for w in random_writes(rng) if len(w) < 1000]
+                if i % 6 == 0:
+                    writes = length_sweep_writes(rng)
                 arun(serial_case(ctx, stream, sizes, writes))
     reach.into(ctx)
     for clause in ("reads-vs-reference", "bytes-at-peer", "use-before-connect", "disconnect-absorbs-os-errors"):
